@@ -159,6 +159,13 @@ func (p Precompile) RegisterToken(
 		StakingTotalAmount: sdkmath.NewInt(0),
 	}
 
+	// every check of SetStakingAssetInfo must pass BEFORE the oracle token is registered: the oracle
+	// registration (params in the store and in the aggregator's memory) is not reverted when this
+	// method reports failure, and a registered oracle token blocks every later attempt.
+	if asset.Decimals > assetstypes.MaxDecimal {
+		return nil, fmt.Errorf("the decimal is greater than the MaxDecimal,decimal:%v,MaxDecimal:%v", asset.Decimals, assetstypes.MaxDecimal)
+	}
+
 	if err := p.assetsKeeper.RegisterNewTokenAndSetTokenFeeder(ctx, &oInfo); err != nil {
 		return nil, err
 	}
